@@ -26,7 +26,7 @@ META = {
                    "recorded location, after all removals. sstore is compared with its spec directly.",
     "assumptions": ["state-variable names are unique and not shadowed (property quantifier)", "C01: the searches reach every syntactic position",
                     "HashMap::remove / contains_key / get contracts"],
-    "floors": {"R08.walker": 1, "R08.writes": 3, "R08.remove": 31, "R08.roots": 4, "R08.candidates": 3, "R08.report": 3},
+    "floors": {"R08.walker": 1, "R08.lines": 1, "R08.writes": 3, "R08.remove": 31, "R08.roots": 4, "R08.candidates": 3, "R08.report": 3},
 }
 
 OPT = "analyzer::optimizations::"
@@ -144,6 +144,9 @@ def run(ctx, crate):
     obs.append(depend.inherited(ctx, crate, "R08.walker", "analyzer::ast::walk_node_for_targets", "the search reaches every nested position (C01's obligations on the walker)",
                                 "C01", lambda o: o.rule in ("R01.children", "R01.order", "R01.once", "R01.uncond", "R01.preorder", "R01.loops", "R01.entry"),
                                 example="the pattern inside !( .. ) or inside a catch body"))
+    # "a line is reported": the line is the detector's location converted by the shared lookup (C02's obligations on the line function and its use)
+    obs.append(depend.inherited(ctx, crate, "R08.lines", "analyzer::utils::get_line_number", "a finding's line is the line its construct begins on (C02's obligations on the line lookup)",
+                                "C02", lambda o: o.rule in ("R02.canon", "R02.range", "R02.plumb"), example="a multi-byte character in a comment before the construct"))
     spec = speccmp.load_spec()
     sm = summary.Summ(crate)
     W15 = write_kinds(crate)
